@@ -47,7 +47,7 @@ def floors(tier):
     f = {"groups": 300, "schedules": 5000, "schedules_exhaustive_groups": 100, "thread_runs": 100,
          "thread_validations": 5000, "thread_runs_20plus_switches": 50, "observed_switches": 2000,
          "distinct_interleaving_signatures": 50}
-    for k in ("refs", "remote", "regex", "format", "types", "same-schema-object", "verdicts", "dollar-schema", "decimal", "handed-on-store", "custom-scheme-root", "shared-handler-document", "types-argument"):
+    for k in ("refs", "remote", "regex", "format", "types", "same-schema-object", "verdicts", "dollar-schema", "decimal", "handed-on-store", "custom-scheme-root", "shared-handler-document", "types-argument", "unserved-by-some"):
         f["collision:" + k] = 25 if k in ("refs", "regex", "same-schema-object", "verdicts", "handed-on-store", "custom-scheme-root") else 15
     return f
 
@@ -103,6 +103,13 @@ def make_member(rng, d, k, kinds, link=None):
             return shared_doc if url.split("#")[0].endswith("doc.json") else part
         handlers = {"http": serve}
         props["sd"] = {"$ref": site + "doc.json"}
+    if "unserved-by-some" in kinds:
+        U_ = "http://unserved.example/lib/doc.json"
+        props["un1"] = {"$ref": U_ + "#/definitions/q"}
+        if k != 0:
+            udoc = {"definitions": {"q": rng.choice(LEAVES)}, "type": "object"}
+            handlers = dict(handlers, http=(lambda url, udoc=udoc: udoc))
+            props["un2"] = {"$ref": U_}
     if "huge-int" in kinds:
         props["big"] = {"type": "string"}
     if "regex" in kinds:
@@ -149,8 +156,9 @@ def make_member(rng, d, k, kinds, link=None):
     legacy_types = None
     if "types-argument" in kinds:
         # what one member asks for by name says nothing about the names it does not mention, and nothing about the others
-        menu = [{"array": (list, dict)}, {"number": (int, float, str)}, {"string": (str, int)}, {"integer": (int, float, str)},
-                {"object": (dict, list)}, {"null": (type(None), str)}, {"boolean": (bool, str)}, {"string": (str, list), "null": (type(None), int)}]
+        # (no container type is redefined: the keyword functions rely on what an "object" and an "array" can do)
+        menu = [{"number": (int, float, str)}, {"string": (str, int)}, {"integer": (int, float, str)},
+                {"null": (type(None), str)}, {"boolean": (bool, str)}, {"string": (str, float), "null": (type(None), int)}, {"number": (int, float, type(None))}]
         legacy_types = menu[(rng.randrange(len(menu)) + 3 * k) % len(menu)]
         for j, tn in enumerate(["string", "number", "object", "array", "null", "integer", "boolean"]):
             props["ty%d" % j] = {"type": tn}
@@ -223,6 +231,10 @@ def group_plan(gseed):
     elif rng.random() < 0.15:
         # every member is built with a (deprecated, still public) types= argument of its own
         kinds = {"types-argument", "verdicts"}
+    elif rng.random() < 0.15:
+        # member 0 cannot retrieve a document (no handler: its iteration ends in RefResolutionError); the others serve the very
+        # same URL through handlers of their own
+        kinds = {"unserved-by-some", "regex"}
     return kinds, n
 
 
@@ -334,11 +346,21 @@ def fork_run(fn):
     return st, val
 
 
+ENDED = "iteration ended in RefResolutionError"
+
+
 def solo(member):
+    out = []
     try:
-        return [fp(e) for e in member["build"]().iter_errors(member["instance"])]
+        for e in member["build"]().iter_errors(member["instance"]):
+            out.append(fp(e))
+    except X.RefResolutionError:
+        # a documented way for an iteration to end (a reference this member's resolver cannot retrieve): part of what the
+        # member yields, alone and in company alike
+        out.append(ENDED)
     except Exception as e:
         return ("exc", type(e).__name__)
+    return out
 
 
 # ----------------------------------------------------------------------- interleavings
@@ -392,6 +414,9 @@ def run_schedule(members, schedule):
             got[i].append(fp(e))
         except StopIteration:
             done[i] = True
+        except X.RefResolutionError:
+            got[i].append(ENDED)
+            done[i] = True
         # a suspended iterator holds no ambient interpreter state (decimal context, recursion limit, ...): whatever
         # runs next in this thread - another validator, the caller - would inherit it
         if ambient.quick() != q0:
@@ -404,6 +429,9 @@ def run_schedule(members, schedule):
                     got[i].append(fp(next(its[i])))
                 except StopIteration:
                     done[i] = True
+                except X.RefResolutionError:
+                    got[i].append(ENDED)
+                    done[i] = True
     if ambient.snapshot() != amb0:
         raise AmbientStateChanged("after the schedule: %r" % ambient.diff(amb0, ambient.snapshot()))
     return got
@@ -412,6 +440,9 @@ def run_schedule(members, schedule):
 def check_group(ctx, rng, members, kinds, solos, gseed=None, only_schedule=None):
     if any(isinstance(s, tuple) for s in solos):
         ctx.count("skipped_solo_exception")
+        for s in solos:
+            if isinstance(s, tuple):
+                ctx.count("skipped_solo_exception:" + "+".join(sorted(kinds)) + ":" + str(s[1]))
         return
     ctx.count("groups")
     for k in kinds:
@@ -512,7 +543,13 @@ def thread_run(ctx, rng, members, kinds, rounds, solos, gseed=None):
             v = prebuilt[t] if prebuilt is not None else assign[t]["build"]()
             barrier.wait()
             for _ in range(rounds):
-                results[t].append(sorted(repr(fp(e)) for e in v.iter_errors(assign[t]["instance"])))
+                one = []
+                try:
+                    for e in v.iter_errors(assign[t]["instance"]):
+                        one.append(repr(fp(e)))
+                except X.RefResolutionError:
+                    one.append(repr(ENDED))
+                results[t].append(sorted(one))
         except Exception as e:
             errors.append((t, type(e).__name__, str(e)[:120]))
     inj = YieldInjector(0.05, rng.randrange(10 ** 9))
